@@ -206,12 +206,16 @@ pub fn gen_fault_histories(suite: &str, region: &str, rng: &mut Rng, class_c: bo
     for variant in 0..4 {
         for k in 0..=ncalls {
             let mut h = AHist::new(suite, region, rng.next() & 0xffff, 15, 40, class_c, 57);
-            match (k + variant) % 3 {
+            match (k + variant) % 4 {
                 0 => {
                     h.abp();
                 }
                 1 => {
                     h.ev(&format!("sess {} {} -", DEVADDR, 0xffff_fffeu32));
+                }
+                3 => {
+                    // the fault hits the uplink that uses the last counter of the session
+                    h.ev(&format!("sess {} {} -", DEVADDR, 0xffff_ffffu32));
                 }
                 _ => {
                     h.ev(&format!("sess {} {} 7", DEVADDR, 0xffffu32));
@@ -415,12 +419,15 @@ pub fn gen_nb_fault_histories(suite: &str, region: &str, rng: &mut Rng, out: &mu
                     continue; // an `Idle` answer to the TxDone interrupt is a radio-driver contract violation (the code panics by design)
                 }
                 let mut h = NHist::new(suite, region, rng.next() & 0xffff, *rng.pick(&[0i32, -20, 35]), *rng.pick(&[100u32, 3000]));
-                match (k + variant) % 3 {
+                match (k + variant) % 4 {
                     0 => {
                         h.ev(&format!("abp {}", DEVADDR));
                     }
                     1 => {
                         h.ev(&format!("sess {} {} -", DEVADDR, 0xffff_fffeu32));
+                    }
+                    3 => {
+                        h.ev(&format!("sess {} {} -", DEVADDR, 0xffff_ffffu32));
                     }
                     _ => {
                         h.ev(&format!("sess {} {} 7", DEVADDR, 0xffffu32));
@@ -771,6 +778,11 @@ pub fn oracle_c05_dev(op: &str, outs: &[String]) -> String {
         }
         let dls = rest.split(" dls=").nth(1).unwrap_or("-").trim();
         let got: Vec<String> = if dls == "-" { vec![] } else { dls.split(',').map(|x| x.to_string()).collect() };
+        // at the exhausted uplink counter every acceptance is answered SessionExpired and nothing is
+        // delivered (as coded; the second disjunct of C05.accept_iff)
+        if fcnt_of_up(rest) == Some(0xffff_ffff) {
+            expect_dls.clear();
+        }
         if hold {
             for d in &expect_dls {
                 if queue.len() < 8 {
@@ -906,7 +918,9 @@ pub fn oracle_c05_nb(op: &str, outs: &[String]) -> String {
                 if acted {
                     last = mic;
                     let want = match w[10].parse::<u8>() {
-                        Ok(p) if p > 0 => format!("{}:{}", p, if w[11] == "-" { "" } else { w[11] }),
+                        // at the exhausted uplink counter the acceptance is reported as SessionExpired
+                        // and nothing is delivered (as coded; the second disjunct of C05.accept_iff)
+                        Ok(p) if p > 0 && !res.starts_with("SessionExpired") => format!("{}:{}", p, if w[11] == "-" { "" } else { w[11] }),
                         _ => "-".to_string(),
                     };
                     if hold {
